@@ -52,3 +52,116 @@ de_harness! {
         std::mem::forget(de);
     }
 }
+
+// ---------------- frontier probes (pooled types) ----------------
+use crate::types::{Field, Label};
+fn fld(id: Label, t: Type) -> Field { Field { id: id.into(), ty: t } }
+
+de_harness! {
+    #[kani::unwind(6)]
+    fn probe_nat_serde() {
+        const N: usize = 3;
+        let buf: [u8; N] = kani::any();
+        let mut de = mk_de(&buf[..], ty(TypeInner::Nat), ty(TypeInner::Nat), cfg_none());
+        let r = <crate::Nat>::deserialize(&mut de);
+        kani::cover!(r.is_ok(), "ok");
+        std::mem::forget(r);
+        std::mem::forget(de);
+    }
+}
+de_harness! {
+    #[kani::unwind(6)]
+    fn probe_principal() {
+        const N: usize = 4;
+        let buf: [u8; N] = kani::any();
+        let mut de = mk_de(&buf[..], ty(TypeInner::Principal), ty(TypeInner::Principal), cfg_none());
+        let r = <crate::Principal>::deserialize(&mut de);
+        kani::cover!(r.is_ok(), "ok");
+        std::mem::forget(r);
+        std::mem::forget(de);
+    }
+}
+#[derive(serde::Deserialize, Debug, PartialEq)]
+enum PE { A, B(u8) }
+de_harness! {
+    #[kani::unwind(6)]
+    fn probe_enum() {
+        const N: usize = 3;
+        let buf: [u8; N] = kani::any();
+        let mk = || ty(TypeInner::Variant(vec![
+            fld(Label::Named("A".to_string()), ty(TypeInner::Null)),
+            fld(Label::Named("B".to_string()), ty(TypeInner::Nat8)),
+        ]));
+        let mut de = mk_de(&buf[..], mk(), mk(), cfg_none());
+        let r = <PE>::deserialize(&mut de);
+        kani::cover!(matches!(r, Ok(PE::B(_))), "B");
+        kani::cover!(matches!(r, Ok(PE::A)), "A");
+        std::mem::forget(r);
+        std::mem::forget(de);
+    }
+}
+#[derive(serde::Deserialize, Debug, PartialEq)]
+struct PS { a: u8 }
+de_harness! {
+    #[kani::unwind(6)]
+    fn probe_struct_skip() {
+        const N: usize = 4;
+        let buf: [u8; N] = kani::any();
+        // "a" hashes to 97, "b" to 98
+        let et = ty(TypeInner::Record(vec![fld(Label::Named("a".to_string()), ty(TypeInner::Nat8))]));
+        let wt = ty(TypeInner::Record(vec![
+            fld(Label::Named("a".to_string()), ty(TypeInner::Nat8)),
+            fld(Label::Named("b".to_string()), ty(TypeInner::Text)),
+        ]));
+        let mut de = mk_de(&buf[..], wt, et, cfg_none());
+        let r = <PS>::deserialize(&mut de);
+        kani::cover!(r.is_ok(), "ok");
+        kani::cover!(r.is_err(), "err");
+        std::mem::forget(r);
+        std::mem::forget(de);
+    }
+}
+de_harness! {
+    #[kani::unwind(6)]
+    fn probe_btreemap_u8() {
+        const N: usize = 3;
+        let buf: [u8; N] = kani::any();
+        kani::assume(buf[0] <= 1);
+        let mk = || ty(TypeInner::Vec(ty(TypeInner::Record(vec![
+            fld(Label::Id(0), ty(TypeInner::Nat8)),
+            fld(Label::Id(1), ty(TypeInner::Nat8)),
+        ]))));
+        let mut de = mk_de(&buf[..], mk(), mk(), cfg_none());
+        let r = <std::collections::BTreeMap<u8, u8>>::deserialize(&mut de);
+        kani::cover!(matches!(&r, Ok(m) if m.len() == 1), "one entry");
+        std::mem::forget(r);
+        std::mem::forget(de);
+    }
+}
+de_harness! {
+    #[kani::unwind(6)]
+    fn probe_subtype_opt() {
+        let env = crate::types::TypeEnv::new();
+        let mut gamma = Gamma::default();
+        let t1 = ty(TypeInner::Opt(ty(TypeInner::Nat)));
+        let t2 = ty(TypeInner::Opt(ty(TypeInner::Int)));
+        let r = subtype_with_config(OptReport::Silence, &mut gamma, &env, &t1, &t2);
+        kani::cover!(r.is_ok(), "ok");
+        std::mem::forget(r);
+        std::mem::forget(gamma);
+    }
+}
+de_harness! {
+    #[kani::unwind(8)]
+    fn probe_header() {
+        // DIDL, 0 types, 1 arg, nat8, value
+        let b4: u8 = kani::any();
+        let b5: u8 = kani::any();
+        let msg = [b'D', b'I', b'D', b'L', 0, 1, b4, b5];
+        let r = IDLDeserialize::new(&msg);
+        kani::cover!(r.is_ok(), "ok");
+        kani::cover!(r.is_err(), "err");
+        std::mem::forget(r);
+    }
+}
+
